@@ -15,7 +15,7 @@ import subprocess
 import sys
 import time
 
-ENV = dict(os.environ, OMP_NUM_THREADS="1", MKL_NUM_THREADS="1", PYTHONWARNINGS="ignore")
+ENV = dict(os.environ, OMP_NUM_THREADS="1", MKL_NUM_THREADS="1", PYTHONWARNINGS="ignore", VERIF_EVIDENCE_DIR="/tmp/verif_seed_evidence")
 
 
 def sh(cmd, cwd=None, timeout=3600):
